@@ -617,8 +617,12 @@ func c09RoundTrip(c *Ctx, m *fbb.Message, b *c09Built, desc string, rep map[stri
 		{"one-byte", func() io.Reader { return iotest.OneByteReader(bytes.NewReader(data)) }},
 		{"half", func() io.Reader { return iotest.HalfReader(bytes.NewReader(data)) }},
 		{"data+eof", func() io.Reader { return iotest.DataErrReader(bytes.NewReader(data)) }},
-		{"random<=7", func() io.Reader { return &rndReader{append([]byte(nil), data...), rand.New(rand.NewSource(c.Rng.Int63())), 7} }},
-		{"random<=5000", func() io.Reader { return &rndReader{append([]byte(nil), data...), rand.New(rand.NewSource(c.Rng.Int63())), 5000} }},
+		{"random<=7", func() io.Reader {
+			return &rndReader{append([]byte(nil), data...), rand.New(rand.NewSource(c.Rng.Int63())), 7}
+		}},
+		{"random<=5000", func() io.Reader {
+			return &rndReader{append([]byte(nil), data...), rand.New(rand.NewSource(c.Rng.Int63())), 5000}
+		}},
 	}
 	var first string
 	var m2 *fbb.Message
@@ -984,8 +988,18 @@ func init() {
 			{"empty Mid", func() *fbb.Message { m := rawBody([]byte("abc")); m.Header.Set("Mid", ""); return m }, false},
 			{"blank Mid", func() *fbb.Message { m := rawBody([]byte("abc")); m.Header.Set("Mid", " "); return m }, false},
 			{"two Mid values", func() *fbb.Message { m := base(); m.Header.Add("Mid", "SECOND"); return m }, false},
-			{"non-canonical key MID next to Mid", func() *fbb.Message { m := base(); m.Header["MID"] = []string{"x"}; m.Header["mid"] = []string{"y"}; return m }, false},
-			{"non-canonical keys", func() *fbb.Message { m := base(); m.Header["x-lower"] = []string{"v"}; m.Header["X-UPPER"] = []string{"w"}; return m }, false},
+			{"non-canonical key MID next to Mid", func() *fbb.Message {
+				m := base()
+				m.Header["MID"] = []string{"x"}
+				m.Header["mid"] = []string{"y"}
+				return m
+			}, false},
+			{"non-canonical keys", func() *fbb.Message {
+				m := base()
+				m.Header["x-lower"] = []string{"v"}
+				m.Header["X-UPPER"] = []string{"w"}
+				return m
+			}, false},
 			{"key with a space", func() *fbb.Message { m := base(); m.Header.Set("X Foo", "v"); m.Header.Set("x bar", "w"); return m }, false},
 			{"empty value list", func() *fbb.Message { m := base(); m.Header["X-None"] = []string{}; return m }, false},
 			{"CRLF inside a value", func() *fbb.Message { m := base(); m.Header.Set("X-Inj", "a\r\nX-Other: b"); return m }, false},
